@@ -5,7 +5,7 @@
      conf  fmt data text    -> "OK" chr(1) output chr(1) missing (sorted, chr(2)-joined) chr(1) T/F
                                | "EXC:MesonException" | "EXC:<class>"
      repl  fmt data line    -> "OK" chr(1) output chr(1) missing
-     header fmt macro data  -> text        (fmt = "c" | "nasm";  macro "" = None) *)
+     header fmt macro data  -> text        (fmt = "c" | "nasm" | "json";  macro "" = None) *)
 From MV Require Import Base.Strs Subst.Data Subst.Meson Subst.CMake Subst.Conf Subst.Header.
 Open Scope N_scope.
 
@@ -91,6 +91,7 @@ Definition run (fn : str) (args : list str) : str :=
     | [f; macro; data] =>
         if str_eqb f (s2l "c") then dump_header HC macro (parse_data data)
         else if str_eqb f (s2l "nasm") then dump_header HNasm macro (parse_data data)
+        else if str_eqb f (s2l "json") then dump_json (parse_data data)
         else s2l "?"
     | _ => s2l "?"
     end
